@@ -235,6 +235,31 @@ func initSpendKinds() {
 		a, _ := address.NewAddressScriptHash(pk, params)
 		sm[a.EncodeAddress()] = pk
 		mk("p2sh-"+name, p2sh(pk), func(b []byte) []byte { return cat(b, push(pk)) })
+		// the same output signed twice: the second SignTxOutput call is handed the
+		// complete script of the first one as previousScript (mergeScripts); what
+		// it returns must still spend the output
+		for _, w := range []struct {
+			name string
+			spk  []byte
+		}{{name + "-resigned", pk}, {"p2sh-" + name + "-resigned", p2sh(pk)}} {
+			w := w
+			spendKinds = append(spendKinds, &spendKind{
+				name: w.name, pkScript: w.spk,
+				sign: func(c *spendCtx, ht uint32) error {
+					first, err := txscript.SignTxOutput(params, c.tx, c.idx, w.spk, txscript.SigHashType(ht), keyDB, scriptDB, nil)
+					if err != nil {
+						return err
+					}
+					second, err := txscript.SignTxOutput(params, c.tx, c.idx, w.spk, txscript.SigHashType(ht), keyDB, scriptDB, first)
+					if err != nil {
+						return err
+					}
+					c.tx.TxIn[c.idx].SignatureScript = second
+					return nil
+				},
+				ref: legacyRef(pk),
+			})
+		}
 	}
 	rawPush := func(k *keyT, code []byte) func(c *spendCtx, ht uint32) ([]byte, error) {
 		return func(c *spendCtx, ht uint32) ([]byte, error) {
